@@ -464,7 +464,30 @@ var ruleScopeS4 = &Rule{
 					isA := func(i ssa.Instruction) bool { return i == ssa.Instruction(call) }
 					isB := func(i ssa.Instruction) bool {
 						c2, ok := i.(*ssa.Call)
-						return ok && c2.Call.StaticCallee() == app && len(c2.Call.Args) == 2 && c2.Call.Args[0] == parent && c2.Call.Args[1] == ssa.Value(call)
+						if !ok || c2.Call.StaticCallee() != app || len(c2.Call.Args) != 2 || c2.Call.Args[0] != parent {
+							return false
+						}
+						if c2.Call.Args[1] == ssa.Value(call) {
+							return true
+						}
+						// the new scope read back from the place it was just stored into (x.MainScope = Create…; parent.Append(x.MainScope))
+						if ld, ok := c2.Call.Args[1].(*ssa.UnOp); ok && ld.Op == token.MUL && call.Referrers() != nil {
+							for _, r := range *call.Referrers() {
+								st, ok := r.(*ssa.Store)
+								if !ok || st.Val != ssa.Value(call) {
+									continue
+								}
+								if st.Addr == ld.X {
+									return true
+								}
+								fa1, ok1 := st.Addr.(*ssa.FieldAddr)
+								fa2, ok2 := ld.X.(*ssa.FieldAddr)
+								if ok1 && ok2 && fa1.X == fa2.X && fa1.Field == fa2.Field {
+									return true
+								}
+							}
+						}
+						return false
 					}
 					okEdge := func(from, to *ssa.BasicBlock) bool { return nilEdge[[2]*ssa.BasicBlock{from, to}] }
 					if bad := mustFollowE(f, isA, isB, okEdge); len(bad) > 0 {
